@@ -76,6 +76,13 @@ type Delivery struct {
 	Tx       *gobinlog.Transaction
 }
 
+// sinkTimeout is a refusal that calls itself temporary.
+type sinkTimeout struct{}
+
+func (sinkTimeout) Error() string   { return "scripted handler failure: sink i/o timeout" }
+func (sinkTimeout) Timeout() bool   { return true }
+func (sinkTimeout) Temporary() bool { return true }
+
 // Outcome is what one execution produced.
 type Outcome struct {
 	Deliveries  []Delivery
@@ -281,6 +288,11 @@ func (r *Runner) Attempt() bool {
 				o.Nest(k)
 			}
 			if !d.Accepted {
+				// the identity of the refusal must not matter: every other one is a
+				// timeout in the idiom of package net (Timeout / Temporary)
+				if k%2 == 1 {
+					return sinkTimeout{}
+				}
 				return fmt.Errorf("scripted handler failure")
 			}
 			return nil
